@@ -50,13 +50,14 @@ def K(N0, MaxN, NIter, MaxObj, WMax, ops):
 PLAN = {
     "quick": dict(
         # exhaustive, one replay case per transition
-        emit=[("all1", K(3, 3, 1, 1, 1, ALL)), ("it2", K(3, 3, 2, 1, 1, ITER))],
+        emit=[("all1", K(3, 3, 1, 1, 1, ALL)), ("it2", K(3, 3, 2, 1, 1, ITER)),
+              ("share2", K(2, 2, 1, 2, 1, [o for o in SHARE if o != "permute"]))],
         dense=["all1"],
-        # exhaustive refinement check only (cases of this shape come from the simulation below)
-        check=[("share2", K(2, 2, 1, 2, 1, SHARE))],
+        # exhaustive refinement check only
+        check=[],
         # (label, constants, num, depth)
-        sim=[("sim", K(4, 5, 2, 2, 2, ALL), 100, 30), ("simit", K(4, 4, 2, 1, 2, NOSLICE), 100, 40),
-             ("simshare", K(3, 3, 2, 2, 2, [o for o in ALL if o != "append"]), 100, 25)],
+        sim=[("sim", K(4, 5, 2, 2, 2, ALL), 60, 30), ("simit", K(4, 4, 2, 1, 2, NOSLICE), 60, 40),
+             ("simshare", K(3, 3, 2, 2, 2, [o for o in ALL if o != "append"]), 60, 25)],
         record=(2, 300, 16), workers=8),
     "thorough": dict(
         emit=[("all1", K(3, 3, 1, 1, 3, ALL)), ("it2", K(3, 3, 2, 1, 1, CORE)), ("grow", K(2, 4, 1, 1, 1, CORE)),
@@ -235,6 +236,10 @@ def run(ctx):
             raise vlib.Infra("expected 9 sparse element types, found %s" % summ["types"])
         if summ["per_kind"].get("matrix", 0) == 0 or summ["per_kind"].get("vector", 0) == 0:
             raise vlib.Infra("vacuous: no matrix or no vector runs in " + label)
+        if k["MaxObj"] == 2 and summ.get("write_through_cases", 0) == 0:
+            raise vlib.Infra("vacuous: no case of %s writes through a scalar shared by a vector and its slice" % label)
+        if k["MaxObj"] == 2:
+            ctx.extra["write_through_cases_" + label] = summ["write_through_cases"]
         bounds["exhaustive_replayed"].append(dict(label=label, states=res.distinct, cases=res.json_count,
                                                   ops=k["ops"], **bounds_of(k)))
         if first_sample:
